@@ -12,6 +12,7 @@ import (
 	"net"
 	"sort"
 	"strings"
+	"sync/atomic"
 
 	"github.com/BurntSushi/toml"
 	"github.com/go-redis/redis/v8"
@@ -160,4 +161,14 @@ func VerifParseBlocklists(c *RegConfig) (err error) {
 		err = g()
 	}
 	return err
+}
+
+// VerifSessionsProxying returns the open-session gauge.
+func VerifSessionsProxying() int64 { return atomic.LoadInt64(&getProxyStats().sessionsProxying) }
+
+// VerifLogger returns a station logger writing to w at the given level.
+func VerifLogger(w io.Writer, lvl log.Level) *log.Logger {
+	l := log.New(w, "", 0)
+	l.SetLevel(lvl)
+	return l
 }
